@@ -12,7 +12,7 @@ import z3
 
 from .ctx import Unsupported
 from .values import (F64, RNE, ClassVal, EnumVal, PDict, PList, PSet, SBool, SBytes, SExc, SFloat,
-                     SInt, SMapZ, SObj, SOpaque, SOpt, SRef, SSeq, SSetZ, SStr, Sym, to_z3)
+                     SInt, SMapZ, SObj, SOpaque, SOpt, SRef, SSeq, SSetZ, SStr, SXReal, Sym, to_z3)
 
 
 class PyExc(Exception):
@@ -24,7 +24,41 @@ class PyExc(Exception):
 
 
 def is_num(v):
-    return isinstance(v, (bool, int, float, SInt, SBool, SFloat))
+    return isinstance(v, (bool, int, float, SInt, SBool, SFloat, SXReal))
+
+
+def to_xreal(v):
+    """extended-real view of an int / concrete float / SXReal"""
+    if isinstance(v, SXReal):
+        return v
+    if isinstance(v, float):
+        if math.isnan(v):
+            return SXReal(z3.BoolVal(True), z3.IntVal(0), z3.RealVal(0))
+        if math.isinf(v):
+            return SXReal(z3.BoolVal(False), z3.IntVal(1 if v > 0 else -1), z3.RealVal(0))
+        from fractions import Fraction
+        fr = Fraction(v)
+        return SXReal(z3.BoolVal(False), z3.IntVal(0), z3.RealVal(fr.numerator) / z3.RealVal(fr.denominator))
+    if is_intlike(v):
+        return SXReal(z3.BoolVal(False), z3.IntVal(0), z3.ToReal(int_z(v)))
+    raise Unsupported(f"to_xreal({v!r})")
+
+
+def xreal_cmp(op, a, b):
+    a, b = to_xreal(a), to_xreal(b)
+    ok = z3.And(z3.Not(a.nan), z3.Not(b.nan))
+    fin = z3.And(a.inf == 0, b.inf == 0)
+    if op == "==":
+        return z3.And(ok, a.inf == b.inf, z3.Or(a.inf != 0, a.r == b.r))
+    if op == "<":
+        return z3.And(ok, z3.Or(a.inf < b.inf, z3.And(fin, a.r < b.r)))
+    if op == "<=":
+        return z3.And(ok, z3.Or(a.inf < b.inf, z3.And(a.inf == b.inf, z3.Or(a.inf != 0, a.r <= b.r))))
+    if op == ">":
+        return xreal_cmp("<", b, a)
+    if op == ">=":
+        return xreal_cmp("<=", b, a)
+    raise Unsupported(op)
 
 
 def is_intlike(v):
@@ -32,7 +66,7 @@ def is_intlike(v):
 
 
 def is_floatlike(v):
-    return isinstance(v, (float, SFloat))
+    return isinstance(v, (float, SFloat, SXReal))
 
 
 def is_strlike(v):
@@ -137,6 +171,8 @@ def truth(v):
         return z3.Length(v.z) > 0
     if isinstance(v, SFloat):
         return z3.Not(z3.fpIsZero(v.z))
+    if isinstance(v, SXReal):
+        return z3.Or(v.nan, v.inf != 0, v.r != 0)
     if isinstance(v, SOpt):
         t = truth(v.val)
         return z3.And(z3.Not(v.isnone), bool_z(t))
@@ -161,6 +197,10 @@ def py_not(t):
 
 # ------------------------------------------------------------------------------ equality
 def _num_eq(a, b):
+    if isinstance(a, SXReal) or isinstance(b, SXReal):
+        if isinstance(a, SFloat) or isinstance(b, SFloat):
+            raise Unsupported("mixing FP-modelled and extended-real-modelled floats")
+        return xreal_cmp("==", a, b)
     if is_intlike(a) and is_intlike(b):
         if not symbolic(a) and not symbolic(b):
             return int(a) == int(b)
@@ -179,7 +219,7 @@ def _num_eq(a, b):
 
 def py_eq(a, b):
     """Python `==` -> python bool or z3 BoolRef."""
-    if a is b and not isinstance(a, (SFloat, float, SOpt)):
+    if a is b and not isinstance(a, (SFloat, SXReal, float, SOpt, tuple, PList, PDict)):
         return True
     if isinstance(a, SOpt):
         if b is None:
@@ -262,6 +302,10 @@ _FLIP = {"<": ">", "<=": ">=", ">": "<", ">=": "<="}
 
 def py_order(op, a, b):
     """a <op> b for op in < <= > >= ; raises PyExc('TypeError') on unrelated kinds."""
+    if (isinstance(a, SXReal) and is_num(b)) or (isinstance(b, SXReal) and is_num(a)):
+        if isinstance(a, SFloat) or isinstance(b, SFloat):
+            raise Unsupported("mixing FP-modelled and extended-real-modelled floats")
+        return xreal_cmp(op, a, b)
     if is_intlike(a) and is_intlike(b):
         if not symbolic(a) and not symbolic(b):
             return _cmp_concrete(op, int(a), int(b))
